@@ -49,6 +49,54 @@ def analyse(fn, prop, F, stats):
             nxt = ps[i + 1] if i + 1 < len(ps) else None
             if nxt is not None and "*" not in nxt.get("ct", "") and ("long" in nxt.get("ct", "") or "int" in nxt.get("ct", "")):
                 own[p["id"]] = (p, nxt)
+    # local views of mpz / mpf operands:  up = PTR (u), usize = SIZ (u) or ABSIZ (u)  pair the pointer with the length of the same object
+    # (mpz_mul: two mpz_roinit_n views may share limbs and differ in size)
+    lp, ln = {}, {}
+
+    def obj_field(e, field):
+        e = _strip(e)
+        if isinstance(e, dict) and e.get("k") == "cond":          # ABS (x): either arm
+            for arm in (e["a"], e["b"]):
+                arm = _strip(arm)
+                if isinstance(arm, dict) and arm.get("k") == "unop" and arm["op"] == "-":
+                    arm = _strip(arm["e"])
+                r = obj_field(arm, field)
+                if r is not None:
+                    return r
+            return None
+        if isinstance(e, dict) and e.get("k") == "member" and e["field"] == field:
+            b = _strip(e.get("base"))
+            if isinstance(b, dict) and b.get("k") == "var" and b.get("param") is not None:
+                return b["id"]
+        return None
+    for blk in fn["blocks"]:
+        for el in blk["elems"]:
+            def g(n):
+                tgt = src = None
+                if n.get("k") == "binop" and n["op"] == "=" and _strip(n["l"]).get("k") == "var":
+                    tgt, src = _strip(n["l"]), n["r"]
+                    one(tgt, src)
+                if n.get("k") == "decl":
+                    for d in n["decls"]:
+                        if "init" in d:
+                            one(d["var"], d["init"])
+
+            def one(tgt, src):
+                if tgt.get("param") is not None:
+                    return
+                o = obj_field(src, "_mp_d")
+                if o is not None and "*" in tgt.get("ct", ""):
+                    lp.setdefault(tgt["id"], (tgt, set()))[1].add(o)
+                o = obj_field(src, "_mp_size")
+                if o is not None and "*" not in tgt.get("ct", ""):
+                    ln.setdefault(o, []).append(tgt)
+            sa.walk(el["e"], g)
+    for pid_, (pv, objs_) in lp.items():
+        if len(objs_) == 1:
+            o = next(iter(objs_))
+            lens_ = {v["id"]: v for v in ln.get(o, [])}
+            if len(lens_) == 1:
+                own[pid_] = (pv, next(iter(lens_.values())))
     if len(own) < 2:
         return
     blocks = sa.blocks_by_id(fn)
@@ -134,7 +182,7 @@ def run(prop="C01", tier="quick"):
             analyse(fn, prop, fx, collections.Counter())
             continue
         rel = relpath(path)
-        if not (rel.startswith("mpn/") or rel.startswith("fft/")):
+        if not rel.startswith(("mpn/", "fft/", "mpz/", "mpq/", "mpf/")):
             continue
         res["stats"]["functions"] += 1
         before = res["stats"]["samesrc_sites"]
